@@ -365,6 +365,16 @@ class Compiler:
                 self._compile_statement(stmt)
         return [s for s in statements if not isinstance(s, FunctionDeclaration)]
 
+    @staticmethod
+    def _declarations_first(statements: List[Node]) -> List[Node]:
+        """The statements of a block, its function declarations first: they take
+        effect when the block is entered."""
+        if not any(isinstance(s, FunctionDeclaration) for s in statements[1:]):
+            return statements
+        return [s for s in statements if isinstance(s, FunctionDeclaration)] + [
+            s for s in statements if not isinstance(s, FunctionDeclaration)
+        ]
+
     def _context_index(self, ctx: LoopContext) -> int:
         """Position of a context on the stack (by identity: contexts compare equal
         field by field)."""
@@ -570,7 +580,7 @@ class Compiler:
                 current = work_stack.pop()
                 if isinstance(current, BlockStatement):
                     # Push body statements in reverse order
-                    for stmt in reversed(current.body):
+                    for stmt in reversed(self._declarations_first(current.body)):
                         work_stack.append(stmt)
                 else:
                     self._compile_statement(current)
@@ -1102,9 +1112,10 @@ class Compiler:
                     self._emit(OpCode.LOAD_UNDEFINED)
                     return
                 # Collect all but last statement
-                intermediate_stmts.extend(current.body[:-1])
+                body = self._declarations_first(current.body)
+                intermediate_stmts.extend(body[:-1])
                 # Continue with last statement
-                current = current.body[-1]
+                current = body[-1]
 
             # Compile all intermediate statements
             for stmt in intermediate_stmts:
